@@ -84,6 +84,65 @@ PROPS = {
         explanation="All clauses of C14 are postconditions/invariants of get_options, set_options, global_options and a "
                     "whole-repository frame scan; every obligation is discharged by z3 with dicts as arrays.",
     ),
+    "C02": dict(level="other", contracts=[], explanation="Bounded run-time contracts only so far (conc/checks_c02.py): exact "
+                "evaluation/substitution oracle; the contract of poly_function.call is not yet under the VC generator.",
+                trusted_base=COMMON_TRUSTED, assumptions=["machine integer arithmetic outside int64 is out of scope (numpy semantics)"]),
+    "C05": dict(level="other", contracts=[], explanation="Bounded run-time contracts only so far (conc/checks_c05.py): identity "
+                "dividend == q*divisor + r in exact arithmetic, termination with iteration counter and state-repeat detection, "
+                "operator routing; division loop invariant/variant not yet under the VC generator.", trusted_base=COMMON_TRUSTED),
+    "C06": dict(level="other", contracts=[], explanation="Bounded run-time contracts only so far (conc/checks_c06.py) under all 16 "
+                "settings of the boolean options.", trusted_base=COMMON_TRUSTED),
+    "C09": dict(level="other", contracts=[], explanation="Bounded run-time contracts only so far (conc/checks_c09.py): numpy on an "
+                "object array of model polynomials as oracle.", trusted_base=COMMON_TRUSTED),
+    "C10": dict(level="other", contracts=[], explanation="Bounded run-time contracts only so far (conc/checks_c10.py).",
+                trusted_base=COMMON_TRUSTED),
+    "C11": dict(level="other", contracts=["numpoly.isconstant", "numpoly.tonumpy"],
+                explanation="isconstant/tonumpy (on which the numeric division family and every 'constant' clause rest) are proved; "
+                "the catalogue of mirrored functions on constants is a bounded run-time check against numpy on plain arrays "
+                "(conc/checks_c11.py).", trusted_base=COMMON_TRUSTED),
+    "C12": dict(level="other", contracts=["numpoly.polynomial_from_attributes", "numpoly.clean_attributes"],
+                explanation="Definedness ghost state: polynomial_from_attributes (through which every constructor and operation "
+                "returns) is proved to write every coefficient on every path (compiled setter only under its precondition, numpy "
+                "fallback, empty case) and to carry the requested dtype; clean_attributes requires defined input. The dtype "
+                "catalogue (14 dtypes, casts, promotion) is a bounded run-time check with 0xA5-poisoned buffers.",
+                trusted_base=COMMON_TRUSTED + ["assumed contract of ndpoly.__new__ and of the compiled cfrom_attributes"]),
+    "C19": dict(level="other", contracts=["numpoly.lead_coefficient", "numpoly.lead_exponent", "numpoly.isconstant", "numpoly.tonumpy",
+                                          "numpoly.glexsort"],
+                explanation="lead_exponent/lead_coefficient (largest non-zero term under the symbolic (graded, reverse) order, zeros "
+                "for the zero polynomial), isconstant, tonumpy (raises exactly for non-constants) are proved; todict, decompose, "
+                "set_dimensions, sortable_proxy, argmax/argmin/amax/amin: bounded run-time checks (conc/checks_c19.py).",
+                trusted_base=COMMON_TRUSTED + ["glexsort contract (proved, C18)", "ndpoly accessor model"]),
+    "C20": dict(level="other", contracts=[], explanation="Bounded/exhaustive run-time checks (conc/checks_c20.py): every single "
+                "exponent 0..0x110040 through construction, raw view, reconstruction, pickle (thorough tier, exhaustive); products "
+                "with exponent sums <= 600 exhaustively; random tuples below 55000.", trusted_base=COMMON_TRUSTED),
+    "C13": dict(level="other", contracts=[], explanation="Bounded run-time contracts only so far (conc/checks_c13.py).",
+                trusted_base=COMMON_TRUSTED),
+    "C16": dict(level="other", contracts=[], explanation="Bounded run-time contracts only so far (conc/checks_c16.py): independent "
+                "parser of the printed text.", trusted_base=COMMON_TRUSTED),
+    "C03": dict(
+        level="other",
+        contracts=["numpoly.remove_redundant_coefficients", "numpoly.remove_redundant_names", "numpoly.postprocess_attributes",
+                   "numpoly.polynomial_from_attributes", "numpoly.clean_attributes"],
+        trusted_base=COMMON_TRUSTED + [
+            "assumed contract of ndpoly.__new__ (fresh, uninitialised storage, one field per exponent row) and of the "
+            "ndpoly accessors .exponents/.coefficients/.values/.keys (engine/polymodel.py); the uint32<->unicode key codec "
+            "behind them is exercised exhaustively at run time under C20",
+            "assumed contract of the compiled numpoly.cfrom_attributes (Cython, cannot be rebuilt here)",
+            "numpy axioms: asarray, any/all, zeros/zeros_like, unique(return_counts), boolean column masks, tolist (engine/polymodel.py)"],
+        assumptions=["A1 casts are identity on values", "B1: the abstract value of a polynomial depends only on its sparse "
+                     "coefficient map (dropping all-zero terms / unused names preserves it)",
+                     "input kinds proved: exponent matrix + list of equally shaped arrays, names None / tuple / ndpoly; "
+                     "str names, dict/sympy/nested-list construction: bounded only"],
+        explanation="remove_redundant_coefficients / remove_redundant_names: exact selection rule (a term is kept iff it has a "
+                    "non-zero coefficient or is the constant term; a name iff some term involves it; fallbacks) proved for any "
+                    "number of terms/names. postprocess_attributes: raises PolynomialConstructionError exactly for the documented "
+                    "reasons, prunes as selected by the retain arguments or (symbolic) options. polynomial_from_attributes: result "
+                    "is fresh, well-formed (WF), carries the post-processed rows/names, requested dtype, every coefficient written "
+                    "(both compiled and numpy path, and the empty case). clean_attributes: cannot fail on a WF polynomial under any "
+                    "option setting and keeps the abstract value. Regeneration from raw view / todict and WF of API results: "
+                    "bounded run-time checks.",
+        not_decided=["regeneration through polynomial(raw structured array) / todict (bounded)", "compose_polynomial_array (bounded)"],
+    ),
     "C07": dict(
         level="other",
         contracts=["numpoly.greater", "numpoly.greater_equal", "numpoly.less", "numpoly.less_equal",
